@@ -209,7 +209,7 @@ PROPS['C10'] = {
 PROPS['C06'] = {
     'title': 'A replica fed the change stream converges to the primary',
     'modules': ['ColumnVerif.Props.C06', 'ColumnVerif.Props.C06store', 'ColumnVerif.Props.C06skel'],
-    'runs': [{'mode': 'store'}, {'mode': 'sched'}],
+    'runs': [{'mode': 'store'}, {'mode': 'sched'}, {'mode': 'stress'}],
     'skeleton': True,
     'trusted_base': CONC_TB + STORE_TB[3:],
     'assumptions': [
